@@ -283,11 +283,13 @@ func c12Run(e *core.Env) {
 	// prices whose reciprocal or chain product sits next to an 8-decimal truncation boundary
 	// (a reciprocal of 0.12345678999999999..., 1/3, 1/7, the largest and smallest amounts):
 	// every single declaration and every two-step chain over them
-	hard := []string{"8.1000000081000002049300004017600053815590", "3", "7", "0.7", "1.00000001", "99999999.99999999", "0.00000001", "1000000000", "0.99999999", "6"}
+	// (0.33333333 and 0.14285714 are the truncated reciprocals of 3 and 7: redeclaring a pair the
+	// other way round with exactly the value that is already stored for that direction)
+	hard := []string{"8.1000000081000002049300004017600053815590", "3", "7", "0.7", "1.00000001", "99999999.99999999", "0.00000001", "1000000000", "0.99999999", "6", "0.33333333", "0.14285714"}
 	for _, p1 := range hard {
 		for _, d1 := range []c12Decl{{"V", "X", p1}, {"X", "V", p1}} {
 			for _, p2 := range append([]string{""}, hard...) {
-				for _, d2 := range []c12Decl{{"Y", "X", p2}, {"X", "Y", p2}} {
+				for _, d2 := range []c12Decl{{"Y", "X", p2}, {"X", "Y", p2}, {"V", "X", p2}, {"X", "V", p2}} {
 					if !e.Take() {
 						continue
 					}
